@@ -148,3 +148,20 @@ Proof.
   - assert (0 < Z.of_nat fuel) by lia. lia.
   - lia.
 Qed.
+
+(* totality together with what the Ok result is: one id per point, every id
+   below 2^iter_count *)
+Theorem rcb_total_finite_f64_ids : forall v fuel sched D k tol pts ws p0,
+  v_old v = false -> v_probe_max v = true -> v_safe_mid v = true ->
+  (0 < D)%nat -> length ws = length p0 -> length pts = length p0 ->
+  Forall (fun p => length p = D) pts -> coords_finite_f64 pts ->
+  Z.of_nat fuel > 2 ^ 34 ->
+  exists p, rcb v fuel sched D k tol pts ws p0 = Ok p
+            /\ length p = length pts /\ Forall (fun i => (i < 2 ^ N.of_nat k)%N) p.
+Proof.
+  intros v fuel sched D k tol pts ws p0 Hold Hpm Hsafe HD E1 E2 Hs Hf Hfuel.
+  destruct (rcb_total_finite_f64 v fuel sched D k tol pts ws p0 Hold Hpm Hsafe HD E1 E2 Hs Hf Hfuel) as [p Hp].
+  exists p. split; [exact Hp|].
+  destruct (rcb_bisect_tree v _ _ _ _ _ _ _ _ _ (finite_coords_ok pts Hf) Hp) as (Hl & _ & Hr).
+  split; [exact Hl|]. destruct pts as [|pt0 t]; [destruct p; [constructor|discriminate]|apply Hr; discriminate].
+Qed.
